@@ -22,7 +22,17 @@ BASE = dict(
     TopUps=S(6), MaxSteps=5, MaxSess=1, Limit=100, Pads=S(0), CreateConts=S(0),
     TwoEntries=False, BadRefs=False, WellBehaved=False, AskAfterFinal=True, KnownDebitNoFui=True, Lrsn0=0, Recharges=True, Traffic=S(), SinkAnswers=S(204), AddrKinds=S("none"), ContShapes=S("single"), ChidModes=S(0), UpdNfcs="{FALSE}",
     Events=False, EvTypes=S(""), Faults=S("none"), BadCreates=S(),
+    OpCfgs="{[vl |-> 0, vlp |-> 0, qvt |-> 0, th |-> 512]}",
 )
+
+# operator configurations (volumeLimit, volumeLimitPDU, quotaValidityTime, volumeThresholdRate * 1024)
+OPCFGS = ("{[vl |-> 0, vlp |-> 0, qvt |-> 0, th |-> 512], [vl |-> 7, vlp |-> 0, qvt |-> 0, th |-> 1024], "
+          "[vl |-> 0, vlp |-> 9, qvt |-> 0, th |-> 0], [vl |-> 0, vlp |-> 0, qvt |-> 11, th |-> 256], "
+          "[vl |-> 7, vlp |-> 9, qvt |-> 11, th |-> 768]}")
+# slices that do not explore the configuration themselves are replayed under one of these, chosen from the behaviour's id
+# (the judge applies the model under the configuration it observes)
+CFG_POOL = [dict(vl=0, vlp=0, qvt=0, th=512), dict(vl=0, vlp=0, qvt=0, th=512), dict(vl=5, vlp=0, qvt=0, th=512),
+            dict(vl=0, vlp=6, qvt=0, th=1024), dict(vl=0, vlp=0, qvt=30, th=256), dict(vl=5, vlp=6, qvt=30, th=768)]
 
 # clause -> invariant of ChfSeqMC that states it on the model
 INV = {
@@ -132,6 +142,9 @@ def cfg(pid, tier):
             # event based charging (one-time events) next to the sessions of the same subscriber
             sl("events", 300 if q else 3000, Events=True, MaxSteps=4 if q else 5, Vols=S(3), Reqs=S(4), AcctChoices=S((9, 2)),
                TopUps=S(), TrigSets=S("none", "final"), Recharges=False),
+            # the operator's configuration (volume limits, quota validity time, threshold rate): two rating groups in one request
+            sl("opcfg", 400 if q else 4000, OpCfgs=OPCFGS, RGs=S("1", "2"), TwoEntries=True, MaxSteps=3 if q else 4, Vols=S(3), Reqs=S(4),
+               AcctChoices=S((9, 2)), TopUps=S(), TrigSets=S("none", "final"), Recharges=False),
         ]
     elif pid == "C06":
         wb = dict(WellBehaved=True, AcctChoices=S((5, 1), (7, 2), (0, 3), (40, 1)), Reqs=S(2, 4), Vols=S(0, 2, 4))
@@ -146,6 +159,8 @@ def cfg(pid, tier):
             # the account balance function unreachable while single requests are served
             sl("abmf-down", 500 if q else 5000, Faults=S("none", "abmf"), MaxSteps=5 if q else 6, TopUps=S(), TrigSets=S("none", "final"),
                Recharges=False, **dict(wb, AcctChoices=S((9, 2), (10, 1)), Vols=S(0, 4), Reqs=S(4))),
+            sl("opcfg", 400 if q else 4000, OpCfgs=OPCFGS, MaxSteps=4 if q else 5, TopUps=S(), TrigSets=S("none", "final"),
+               Recharges=False, Modes=S("on", "off"), **dict(wb, AcctChoices=S((9, 2), (3, 1)), Vols=S(0, 4), Reqs=S(4))),
         ]
     elif pid == "C12":
         base = dict(BadRefs=True, Reqs=S(4), Vols=S(3), TopUps=S(), AcctChoices=S((9, 1)), Limit=6,
@@ -219,7 +234,10 @@ def to_behaviour(hist, bid, padmap):
     # how the consumer numbers its invocations is a presentation parameter of the replay (the model does not depend on it):
     # one counter per behaviour, or -- every second behaviour -- one counter per session (TS 32.290)
     import zlib
-    b = dict(id=bid, isn="session" if zlib.crc32(bid.encode()) % 2 else "", lrsn0=setup["lrsn0"], wb=setup["wb"], ues=sorted(setup["ues"]),
+    cfg = setup.get("cfg") or CFG_POOL[0]
+    if cfg == CFG_POOL[0]:
+        cfg = CFG_POOL[(zlib.crc32(bid.encode()) // 2) % len(CFG_POOL)]
+    b = dict(id=bid, cfg=cfg, isn="session" if zlib.crc32(bid.encode()) % 2 else "", lrsn0=setup["lrsn0"], wb=setup["wb"], ues=sorted(setup["ues"]),
              accts=sorted(setup["accts"], key=lambda a: (a["u"], a["rg"])), steps=[])
     for st in hist[1:]:
         st = {k: x for k, x in st.items() if k != "sig"}
